@@ -32,7 +32,7 @@ RULE = ("schedules of 1-8 queued requests (GET/POST with bodies, unique path and
         "a query in their path, several queued before the earlier one is built; payload kinds per request (data= JSON, fargs= form, body= bytes, none) on "
         "GET/POST/PUT/PATCH/DELETE with explicit or default headers; reconnectable connectors (reconnect timer 1-12 passes of virtual "
         "time) against servers that close after replies, requests queued and popped during the cutoff, redirects followed across a close; in ~45% of the cases the answers are consumed through Client.respond(); replies optionally preceded by an interim 100 Continue (bare or with a header, same segment or earlier); in ~30% of the cases the application hands its own requests/responses/events/redirects "
-        "containers (empty or pre-filled) to the constructor and works on those "
+        "containers (empty or pre-filled) to the constructor and works on those; request paths with characters quote() changes and requests that reuse the previous path/method (Client.request without path, raw dicts without path) "
         "(after every pass / only at the end / in bursts).  A case is non-trivial when >= 3 requests were queued and some reply was delayed, "
         "fragmented or a redirect")
 MODELLED = ["response parsing (real Respondent) is abstracted to 'a complete reply with status s and Location l was "
@@ -55,6 +55,7 @@ class Net:
         self.replies = replies
         self.k = 0            # index of next reply
         self.wire = []        # [conn_id, secure, host_index, path]
+        self.asked = []       # raw request-line paths, in order
         self.socks = []
         self.nconn = 0
 
@@ -120,6 +121,7 @@ class FakeSock:
             del self.rx[:i + 4 + n]
             verb, path = lines[0].split(" ")[:2]
             self.net.wire.append([self.conn_id, self.secure, HOSTS.index(self.ha), path, verb, classify_body(body), ctype_kind(ctype)])
+            self.net.asked.append(path.partition("?")[0])   # the raw (percent-encoded) path the server was asked for
             k = self.net.k
             self.net.k += 1
             r = self.net.replies[k] if k < len(self.net.replies) else {"status": 200}
@@ -155,7 +157,8 @@ class FakeSock:
         self.pending = keep
 
 
-KEYS = ["a", "b", "token"]
+KEYS = ["a", "b", "token", "id"]   # "id" identifies a request that reuses the previous path
+SUFFIXES = ["", "/a b", "/x:y@z", "/p,q;r", "/100%", "/\u00e9t\u00e9", "/a%20b"]   # quote() changes all but the first
 
 
 def q_text(q):
@@ -172,11 +175,35 @@ def q_parse(text):
 
 
 def split_target(path):
-    """'/t5?a=1' -> ('req', 5, [[0, 1]])"""
+    """'/t5/a%20b?a=1' -> ('req', 5, [[0, 1]]); a request that reuses another path carries id=<tag> in its query"""
+    import re
     p, _, query = path.partition("?")
+    q = q_parse(query)
+    ids = [v for k, v in q if k == 3]
+    if ids:
+        return "req", ids[0], q
     kind = "req" if p.startswith("/t") else "redir"
-    num = int(p[2:]) if p[2:].isdigit() else 9999
-    return kind, num, q_parse(query)
+    m = re.match(r"/[tr](\d+)", p)
+    return kind, int(m.group(1)) if m else 9999, q
+
+
+def rmethod(ev, obs):
+    """the request's method: as queued, or ("same") the requester's at the moment it was queued"""
+    m = ev_method(ev)
+    return obs.get("msnaps", {}).get(str(ev[1]), "GET") if m == "same" else m
+
+
+def ev_sfx(ev):
+    return SUFFIXES[ev[7]] if len(ev) > 7 and isinstance(ev[7], int) else ""
+
+
+def ev_reuse(ev):
+    """None | "nopath" (Client.request without path) | "rawnopath" (raw request dict without 'path')"""
+    return ev[8] if len(ev) > 8 else None
+
+
+def ev_path(ev):
+    return f"/t{ev[1]}" + ev_sfx(ev)
 
 
 def ev_explicit(ev):
@@ -365,6 +392,9 @@ def _pay_of_request(request):
 def _target_of(request):
     kind, num, _ = split_target(request.get("path") or "/t9999")
     q = [[KEYS.index(k) if k in KEYS else 99, int(v) if str(v).isdigit() else 99] for k, v in (request.get("qargs") or {}).items()]
+    ids = [v for k, v in q if k == 3]
+    if ids:
+        kind, num = "req", ids[0]
     return [kind == "redir", num, q]
 
 
@@ -392,7 +422,7 @@ def run_impl(case):
             if owned == "prefilled" and case["events"] and case["events"][0][0] == "enq":
                 ev = case["events"][0]
                 t, m, q, pq = ev[1], ev_method(ev), ev_explicit(ev), ev_pathq(ev)
-                rq = {"method": m, "path": f"/t{t}" + ("?" + q_text(pq) if pq else ""),
+                rq = {"method": m, "path": ev_path(ev) + ("?" + q_text(pq) if pq else ""),
                       "qargs": {KEYS[k]: str(v) for k, v in (q or [])}, "fragment": "",
                       "headers": {"X-Tag": str(t)} if ev_hdr(ev) else {}, "body": b"", "data": None, "fargs": None, "tag": t}
                 pk = ev_pay(ev)
@@ -417,7 +447,7 @@ def run_impl(case):
         resp_q = app["responses"] if owned else client.responses
         prefilled = 1 if (owned == "prefilled" and len(req_q)) else 0
         client.reopen()
-        trace, escaped, bodies, snaps, ctsnaps = [], None, [], {}, {}
+        trace, escaped, bodies, snaps, ctsnaps, psnaps, msnaps = [], None, [], {}, {}, {}, {}
         arrivals, takes = [], []   # every entry appended to .responses, in order; what each respond() returned
 
         def take():
@@ -446,7 +476,11 @@ def run_impl(case):
                 continue
             if ev[0] == "enq":
                 t, m, q, pq = ev[1], ev_method(ev), ev_explicit(ev), ev_pathq(ev)
-                kw = {"path": f"/t{t}" + ("?" + q_text(pq) if pq else "")}
+                kw = {"path": ev_path(ev) + ("?" + q_text(pq) if pq else "")}
+                psnaps[t] = client.requester.path   # what a request without path reuses (Client.request copies it now)
+                msnaps[t] = client.requester.method
+                if ev_reuse(ev):
+                    del kw["path"]
                 if q is not None:
                     kw["qargs"] = {KEYS[k]: str(v) for k, v in q}
                 pk = ev_pay(ev)
@@ -461,7 +495,14 @@ def run_impl(case):
                 ctsnaps[t] = ctype_kind(client.requester.headers.get("content-type"))
                 # Client.request without qargs takes (a copy of) the requester's current ones: note them
                 snaps[t] = _target_of({"path": "/t0", "qargs": client.requester.qargs})[2]
-                client.request(method=m, tag=t, **kw)
+                if ev_reuse(ev) == "rawnopath":   # the docstring's other way in: a raw dict on the deque, here without 'path'
+                    raw = {"method": m if m != "same" else None, "tag": t}
+                    raw.update({k: v for k, v in kw.items() if k != "path"})
+                    if raw["method"] is None:
+                        del raw["method"]
+                    req_q.append(raw)
+                    continue
+                client.request(method=(None if m == "same" else m), tag=t, **kw)
                 if client.requests is not req_q:   # the application appends to ITS deque
                     req_q.append(client.requests.pop())
                 continue
@@ -505,7 +546,8 @@ def run_impl(case):
         for cid, sec, hi, path, verb, pay, ctk in net.wire:
             kind, num, q = split_target(path)
             wire.append([cid, bool(sec), hi, kind, num, verb, q, pay, ctk])
-        return {"takes": takes, "taken_each": take_mode == "each", "taken_end": take_mode == "end",
+        return {"psnaps": {str(k): v for k, v in psnaps.items()}, "msnaps": {str(k): v for k, v in msnaps.items()},
+                "asked": list(net.asked), "takes": takes, "taken_each": take_mode == "each", "taken_end": take_mode == "end",
                 "snaps": {str(k): v for k, v in snaps.items()}, "ctsnaps": {str(k): v for k, v in ctsnaps.items()},
                 "trace": trace, "entries": entries, "wire": wire, "escaped": escaped, "unsent": len(client.connector.txbs),
                 "final": [bool(client.waited), len(req_q), len(client.redirects)], "identity": identity,
@@ -581,7 +623,7 @@ def oracle(case, obs):
             return "a refused redirect was delivered without errored"
         k += 1
     # methods on the wire are the queued requests' methods; bodies intact (taken when the entry arrived)
-    meth = {ev[1]: ev_method(ev) for ev in case["events"] if ev[0] == "enq"}
+    meth = {ev[1]: rmethod(ev, obs) for ev in case["events"] if ev[0] == "enq"}
     for w in obs["wire"]:
         if w[3] == "req" and w[5] != meth.get(w[4]):
             return f"request {w[4]} went on the wire as {w[5]}, queued as {meth.get(w[4])}"
@@ -629,17 +671,41 @@ def oracle(case, obs):
     for t in obs.get("takes", []):
         if (t[0] is None) != (t[1] == 0):
             return f"Client.respond() returned {'None' if t[0] is None else 'an entry'} with {t[1]} entries waiting"
+    # paths: what the server was asked for, and what the entry's request records, is the queued path - for a request
+    # queued without path the requester's path of that moment (Client.request) / of the previous transmission (raw dict)
+    from urllib.parse import unquote as _unq, quote as _quo
+    reqpos = [j for j, w in enumerate(obs["wire"]) if w[3] == "req"]
+    for j in reqpos:
+        w = obs["wire"][j]
+        ev = evof.get(w[4]) if False else {e[1]: e for e in case["events"] if e[0] == "enq"}.get(w[4])
+        if ev is None:
+            continue
+        if ev_reuse(ev) == "nopath":
+            want = obs["psnaps"].get(str(w[4]))
+        elif ev_reuse(ev) == "rawnopath":
+            want = _unq(obs["asked"][j - 1]) if j > 0 else "/"
+        else:
+            want = ev_path(ev)
+        got = obs["asked"][j] if j < len(obs.get("asked", [])) else None
+        if want is not None and got != _quo(want):
+            return (f"request {w[4]} was queued for path {want!r} (on the wire {_quo(want)!r}) but the server was asked for {got!r}")
+    for e, o in zip(obs["entries"], origins):
+        ev = {x[1]: x for x in case["events"] if x[0] == "enq"}.get(o)
+        if ev is not None and not e["history"] and not ev_reuse(ev) and e["path"] != ev_path(ev):
+            return f"entry for request {o}: request['path'] is {e['path']!r}, queued path {ev_path(ev)!r}"
+        if ev is not None and not e["history"] and ev_reuse(ev) == "nopath" and e["path"] != obs["psnaps"].get(str(o)):
+            return f"entry for request {o}: request['path'] is {e['path']!r}, the reused path was {obs['psnaps'].get(str(o))!r}"
     # payloads: the body bytes and Content-Type the server received for request k, and the entry's request dict,
     # are exactly what was queued for request k (nothing of an earlier request's data=/fargs=/body=)
     evof = {ev[1]: ev for ev in case["events"] if ev[0] == "enq"}
     for w in obs["wire"]:
         if w[3] == "req" and w[4] in evof:
             ev = evof[w[4]]
-            want = [0, 0] if ev_method(ev) == "GET" else pay_of(ev)
+            want = [0, 0] if rmethod(ev, obs) == "GET" else pay_of(ev)
             if w[7] != want:
-                return (f"request {w[4]} ({ev_method(ev)}, queued with {ev_pay(ev)}) reached the server with payload {w[7]} "
+                return (f"request {w[4]} ({rmethod(ev, obs)}, queued with {ev_pay(ev)}) reached the server with payload {w[7]} "
                         f"(kind,id), expected {want}")
-            if ev_method(ev) != "GET":
+            if rmethod(ev, obs) != "GET":
                 wct = {"data": "json", "fargs": "form"}.get(ev_pay(ev),
                                                             None if ev_hdr(ev) else obs["ctsnaps"].get(str(w[4])))
                 if w[8] != wct:
@@ -755,6 +821,14 @@ def directed():
         # Client.request WITHOUT qargs, several queued before anything is built, earlier paths carry a query
         {"events": [["enq", 1, "GET", "none", [[0, 1]]], ["enq", 2, "GET", "none"], ["enq", 3, "GET", "none", [[1, 2]]], ["enq", 4, "GET", "none"]],
          "replies": [{}, {}, {}, {}]},
+        # paths with characters quote() changes; later requests reuse the previous path (no path argument / raw dict without path)
+        {"events": [["enq", 1, "GET", [], [], "none", True, 1], ["enq", 2, "POST", [[3, 2]], [], "body", True, 0, "nopath"], ["pass"], ["pass"], ["pass"],
+                    ["enq", 3, "same", [[3, 3]], [], "none", False, 0, "nopath"], ["enq", 4, "PUT", [[3, 4]], [], "data", True, 0, "rawnopath"],
+                    ["enq", 5, "GET", [], [], "none", True, 5], ["enq", 6, "GET", [[3, 6], [0, 1]], [], "none", True, 0, "nopath"]],
+         "replies": [{}, {}, {}, {}, {}, {}], "drain": 40},
+        {"events": [["enq", 1, "GET", [], [], "none", True, 4], ["pass"], ["pass"], ["enq", 2, "GET", [[3, 2]], [], "none", True, 0, "rawnopath"],
+                    ["pass"], ["pass"], ["enq", 3, "GET", [[3, 3]], [], "none", True, 0, "nopath"], ["enq", 4, "GET", [], [], "none", True, 6]],
+         "replies": [{}, {"status": 302, "loc": rel}, {}, {}, {}], "drain": 40},
         # application-owned containers handed to the constructor (empty / pre-filled), appended to afterwards
         {"owned": "empty", "events": _sched([1, 2, 3], [1, 0, 0]), "replies": [{}, {"delay": 1}, {}]},
         {"owned": "prefilled", "events": [["enq", 1, "POST", [[0, 1]], [], "data", True], ["pass"], ["enq", 2, "GET"], ["enq", 3, "HEAD"]],
@@ -813,6 +887,24 @@ def gen_case(rng):
             while len(ev) < 5:
                 ev.append([])
             ev += payload
+        if rng.random() < 0.35 and not (len(ev) > 3 and ev[3] == "none") and not (len(ev) > 4 and ev[4] == "inpath"):
+            # a path quote() changes, or a request that reuses the previous path (identified by id=<tag>)
+            while len(ev) < 5:
+                ev.append([])
+            if len(ev) < 7:
+                ev += ["body" if ev[2] in ("POST", "PUT") else "none", rng.random() < 0.5]
+            if events and rng.random() < 0.4:
+                ev[3] = [[3, t]] + [p for p in ev[3] if p[0] != 3]
+                ev[4] = []
+                ev += [0, rng.choice(["nopath", "nopath", "rawnopath"])]
+                if ev[8] == "rawnopath":
+                    ev[6] = True   # a raw dict without headers reuses the requester's of the moment it is transmitted
+                if rng.random() < 0.3 and ev[5] == "none" and ev[8] == "nopath":
+                    ev[2] = "same"
+            else:
+                ev.append(rng.randrange(1, len(SUFFIXES)))
+        if any(ev_reuse(e) for e in events if e[0] == "enq") and len(ev) > 3 and ev[3] == "none":
+            ev[3] = []   # a default-qargs request would inherit the id= key of an earlier path-reusing request
         events.append(ev)
         for _ in range(rng.choice([0, 0, 0, 1, 2, 4])):
             events.append(["pass"])
@@ -1033,7 +1125,7 @@ def to_coq(case, obs):
         coq_N(w[0]), coq_bool(w[1]), coq_N(w[2]),
         ("(HttpClient.WReq %s)" if w[3] == "req" else "(HttpClient.WRedir %s)") % coq_N(w[4]), _q(w[6]), _pay(w[7])) for w in obs["wire"]],
         "HttpClient.wentry")
-    meths = coq_list(["(%s, %s)" % (coq_N(ev[1]), coq_N(METHODS.index(ev_method(ev)))) for ev in case["events"] if ev[0] == "enq"], "N * N")
+    meths = coq_list(["(%s, %s)" % (coq_N(ev[1]), coq_N(METHODS.index(rmethod(ev, obs)) if rmethod(ev, obs) in METHODS else 0)) for ev in case["events"] if ev[0] == "enq"], "N * N")
     qas = coq_list(["(%s, %s)" % (coq_N(ev[1]), coq_option(ev_explicit(ev), _q, "HttpClient.qargs")) for ev in case["events"] if ev[0] == "enq"],
                    "N * option HttpClient.qargs")
     pays = coq_list(["(%s, %s)" % (coq_N(ev[1]), _pay(pay_of(ev))) for ev in case["events"] if ev[0] == "enq"], "N * HttpClient.payload")
